@@ -124,6 +124,27 @@ def run(ctx):
             k = "%s%s:%s" % ("tclose" if c["tcl"] != "no" else "", "crst" if c["crst"] else "", c["mlog"][-1]["s"])
             ctx.cov["socket_error_outcomes"][k] = ctx.cov["socket_error_outcomes"].get(k, 0) + 1
 
+    # a relay write that fails part-way: the receiver stops reading (16 KiB socket buffers), the sender keeps sending 400 KiB
+    # chunks, the receiver resets (target during an upload, client during a download): the sent-to counters must not exceed
+    # what the proxy's write system calls really handed to that socket (counted by the harness underneath the handler)
+    wf = tc.gen(ctx, "Gen_TcpConn_C15WriteFail.cfg", 2500 if q else 10000, seed=ctx.seed + 9)
+    wup = [b for b in wf if tc.features(b)["rst"] and any(e["a"] == "TPause" for e in b["tr"])]
+    wdn = [b for b in wf if tc.features(b)["crst"] and any(e["a"] == "CPause" for e in b["tr"])]
+    wpick = []
+    for b in tc.select(wup, 10 if q else 80, lambda f: (min(f["trecv"], 2),), rng) + tc.select(wdn, 10 if q else 80, lambda f: (min(f["crecv"], 2),), rng):
+        b = copy.deepcopy(b)
+        b["ov"] = {"datasize": 400 << 10, "tdatasize": 400 << 10}
+        wpick.append(b)
+    if len(wpick) < 10:
+        raise vlib.Inconclusive("too few failing-write behaviours (%d up, %d down)" % (len(wup), len(wdn)))
+    wcases, _, _, whung = tc.run_family(ctx, "C15_", wpick, label="c15-write-fails-part-way", timeout_ms=5000, par=8, extra=["-hang-ms", "8000"])
+    if whung:
+        raise vlib.Inconclusive("handlers still running after the script ended: %s" % ctx.notes[-1])
+    tc.mech_pass(ctx, wcases, wpick, label="c15-write-fails-part-way")
+    ctx.cov["distinct_nontrivial"] += len(wpick)
+    ctx.cov["failing_writes"] = {"records": len(wcases), "counter_below_payload": sum(
+        1 for c in wcases if c["mlog"] and c["mlog"][-1]["m"] == "Closed" and (c["mlog"][-1]["n"][1] < c["wcpl"] or c["mlog"][-1]["n"][3] < c["wpc"] + 1))}
+
     # the server's wiring layer, service.NewShadowsocksService(...).HandleStream with a recording ServiceMetrics (the metrics
     # object of a connection is what AddOpenTCPConnection returns):
     #  (a) connections handed out right before accept reports net.ErrClosed (StreamServe with the harness' accept function)
